@@ -816,9 +816,19 @@ pub fn main() -> Result<(), Box<dyn Error>> {
             .location()
             .map(|l| format!("{}:{}", l.file(), l.line()))
             .unwrap_or_default();
+        // innermost frame that belongs to the server (panics raised inside core/std - slicing,
+        // split_at, unwrap - carry a location in the standard library)
+        let bt = std::backtrace::Backtrace::force_capture().to_string();
+        let frame = bt
+            .lines()
+            .map(|l| l.trim())
+            .filter(|l| (l.contains("parol_ls::") || l.contains("parol::") || l.contains("parol_runtime::")) && !l.contains("verif_driver") && !l.contains("verif_sync"))
+            .map(|l| l.split_once(": ").map(|x| x.1).unwrap_or(l).to_string())
+            .next()
+            .unwrap_or_default();
         let _ = LAST_PANIC.try_with(|p| {
             if let Ok(mut p) = p.try_borrow_mut() {
-                *p = Some(format!("{msg} @ {loc}"));
+                *p = Some(format!("{msg} [in {frame}] @ {loc}"));
             }
         });
     }));
